@@ -77,15 +77,12 @@ static const char* const kOpName[] = {
 
 enum ThrState { TS_FREE = 0, TS_PARKED, TS_RUNNING, TS_EXITED };
 
-#define SEEN_CAP 48
-#define RSET_SLOTS 512
-#define RSET_MAX 300
-#define WLOG_CAP 96
+#define SEQ_CAP 4096
+#define SEQ_IDX_SLOTS 8192
+#define RSET_SLOTS 4096
+#define RSET_MAX 2500
+#define WLOG_CAP 512
 
-struct SeenKey {
-  uintptr_t pc, sp, addr;
-  uint64_t val;
-};
 struct WlogEnt {
   uintptr_t addr;
   uint64_t old;
@@ -116,8 +113,16 @@ struct Thr {
   uint64_t h;
   // loop detection
   bool looping;
-  int nseen;
-  SeenKey seen[SEEN_CAP];
+  int nseq;               // events since the last reset
+  uint64_t seq[SEQ_CAP];  // hashed (kind,pc,sp,addr,value) of read-like events
+  uint64_t pdig;          // digest of plain reads since the previous event
+  int cand_p;             // candidate period
+  int match_len;          // trailing events matching at distance cand_p
+  struct {
+    uint64_t key;
+    uint32_t gen;
+    int idx;
+  } seqidx[SEQ_IDX_SLOTS]; // last occurrence of an event hash
   uint32_t rgen;
   int rcount;
   bool roverflow;
@@ -335,7 +340,10 @@ static SyncObj* sync_get(uintptr_t addr) {
 static inline void loop_reset(Thr* t) {
   t->looping   = false;
   t->ydis      = false;
-  t->nseen     = 0;
+  t->nseq      = 0;
+  t->pdig      = 0;
+  t->cand_p    = 0;
+  t->match_len = 0;
   t->rgen++;
   t->rcount    = 0;
   t->roverflow = false;
@@ -409,25 +417,58 @@ static bool wlog_changed(Thr* me) {
   return false;
 }
 
-// returns true if (pc,sp,addr,val) repeats with nothing changed in between
+// The thread executed a read-like event (atomic load, failed CAS, no-op RMW,
+// failed trylock, explicit yield).  Returns true when the sequence of such
+// events since its last own change consists of one period executed twice in a
+// row with identical addresses and values and no own write in between: the
+// thread is waiting (its next iteration would be identical until somebody
+// else writes something it read).
 static bool loop_check(Thr* me, uintptr_t pc, uintptr_t sp, uintptr_t addr,
                        uint64_t val) {
   if (me->looping && wlog_changed(me)) {
     loop_reset(me);
     g.stall_rounds = 0;
   }
-  for (int i = 0; i < me->nseen; ++i) {
-    SeenKey* k = &me->seen[i];
-    if (k->pc == pc && k->sp == sp && k->addr == addr && k->val == val)
-      return true;
-  }
-  if (me->nseen >= SEEN_CAP) {
+  if (me->nseq >= SEQ_CAP)
     loop_reset(me);
-  }
-  me->seen[me->nseen++] = SeenKey{pc, sp, addr, val};
-  me->looping           = true;
+  uint64_t h = mix(mix(mix(mix(pc, sp), addr), val), me->pdig) | 1;
+  me->pdig   = 0;
+  int n      = me->nseq;
+  me->seq[n] = h;
+  me->nseq   = n + 1;
+  me->looping = true;
   g.loopmask |= 1u << me->tid;
-  return false;
+  // previous occurrence of h
+  unsigned slot = (unsigned)(h >> 7) & (SEQ_IDX_SLOTS - 1);
+  int prev      = -1;
+  for (;;) {
+    if (me->seqidx[slot].gen != me->rgen) {
+      me->seqidx[slot].gen = me->rgen;
+      me->seqidx[slot].key = h;
+      me->seqidx[slot].idx = n;
+      break;
+    }
+    if (me->seqidx[slot].key == h) {
+      prev                 = me->seqidx[slot].idx;
+      me->seqidx[slot].idx = n;
+      break;
+    }
+    slot = (slot + 1) & (SEQ_IDX_SLOTS - 1);
+  }
+  if (me->cand_p > 0 && n - me->cand_p >= 0 && me->seq[n - me->cand_p] == h) {
+    me->match_len++;
+  } else if (prev >= 0) {
+    int p = n - prev;
+    int m = 0;
+    while (m < p && n - m - p >= 0 && me->seq[n - m] == me->seq[n - m - p])
+      ++m;
+    me->cand_p    = p;
+    me->match_len = m;
+  } else {
+    me->cand_p    = 0;
+    me->match_len = 0;
+  }
+  return me->cand_p > 0 && me->match_len >= me->cand_p;
 }
 
 // ---------------------------------------------------------------------------
@@ -749,6 +790,9 @@ static inline void plain_access(uintptr_t addr, int size, bool is_write,
     rset_add(me, addr >> 3);
     if (size > 8 || ((addr & 7) + size > 8))
       rset_add(me, (addr + size - 1) >> 3);
+    uint64_t v = 0;
+    memcpy(&v, (void*)addr, size > 8 ? 8 : size);
+    me->pdig = mix(me->pdig ^ pc, addr ^ (v * 0x9e3779b97f4a7c15ULL));
   }
   if (g.window && g.job->track_races) {
     shadow_access(me, addr, is_write, pc);
@@ -845,16 +889,13 @@ static inline void hb_rmw_release(Thr* me, SyncObj* o, int mo) {
 static inline void after_read(Thr* me, int kind, uintptr_t addr, uint64_t val,
                               uintptr_t pc, uintptr_t sp) {
   record(me, kind, addr, val, false, pc);
-  if (me->looping)
-    rset_add(me, addr >> 3);
-  if (loop_check(me, pc, sp, addr, val)) {
-    // same read, same place, same value, nothing changed: this is a wait
+  bool waiting = loop_check(me, pc ^ ((uintptr_t)kind << 56), sp, addr, val);
+  rset_add(me, addr >> 3);
+  if (waiting) {
+    // the same read-only period twice in a row: this thread is waiting
     me->ydis = true;
     g.loopmask |= 1u << me->tid;
-    rset_add(me, addr >> 3);
     sched_point(me, OP_YIELD, addr, 0, pc);
-  } else {
-    rset_add(me, addr >> 3);
   }
 }
 static inline void after_write(Thr* me, int kind, uintptr_t addr, uint64_t val,
